@@ -36,6 +36,26 @@ CHECKS = {
               "each model operation (reach_wf) is proved for the operations listed in evidence; the rest is monitored."),
         design_ref='DESIGN.md section 7 / C20',
         technique='Coq proof of checker correctness + verified runtime monitor on every produced diagram + differential evaluation'),
+    'C03': dict(
+        text=("Machine-checked proof (Coq) of canonicity: two well-formed diagrams that agree on every admissible valuation are the "
+              "same diagram, provided the cuts occurring in them lie in the dense part of the value domains (release-only version "
+              "bounds; string bounds without the minimum '' as exclusive upper bound and without successor pairs s / s+U+0000); "
+              "density of the concrete version and string orders is proved, not assumed; is_true/is_false are exact under the same "
+              "proviso; and/or/negate preserve well-formedness (the other constructors are covered by C11/C12/C10 and by the verified "
+              "monitor m_wfb on every produced diagram). Outside the proviso the statement is refuted in Coq with a witness "
+              "(`os_name < ''`); that class is the known finding F10 and is reported as such. Tie: every dump goes through m_wfb; "
+              "==/cmp/hash are compared with an exact region-enumeration decision of semantic equality for pairs built through "
+              "14 boolean laws and random pairs."),
+        design_ref='DESIGN.md section 7 / C03',
+        technique='Coq proof (canonicity of reduced ordered diagrams over dense orders) + verified monitor + exact semantic-equality search'),
+    'C04': dict(
+        text=("Machine-checked proof (Coq): m_disjoint a b = is_false (m_and a b) for all diagrams (no hypothesis), m_disjoint is "
+              "symmetric (no hypothesis), a positive verdict excludes every common valuation for sorted well-typed operands "
+              "(via C02), is_true/is_false are sound. Tie: m_disjoint (extracted) vs is_disjoint on the operands the crate produced, "
+              "both argument orders, vs (a and b).is_false(); positive verdicts are attacked by an exact region search replayed on "
+              "evaluate()."),
+        design_ref='DESIGN.md section 7 / C04',
+        technique='Coq proof (simultaneous induction with tand) + step-wise differential correspondence + counter-model search'),
 }
 
 PENDING = {}
